@@ -134,6 +134,37 @@ def q_touch_mols(c, A, ctx):
     return out
 
 
+def q_mol_api(c, A, ctx):
+    # the rest of Molecule's read-only API, used on molecules the crystal
+    # handed out (none of these calls may change the molecule: copies are
+    # returned by translated/rotated/transformed/oriented/mask)
+    import os
+    from pathlib import Path
+
+    pts = np.array([[0.0, 0.0, 0.0], [1.0, 2.0, 3.0]])
+    rot = np.array([[0.0, 1.0, 0.0], [-1.0, 0.0, 0.0], [0.0, 0.0, 1.0]])
+    mols = c.symmetry_unique_molecules()
+    out = []
+    for k, m in enumerate(mols[:3]):
+        path = os.path.join(ctx["dir"], "mol%d.xyz" % k)
+        m.save(path)
+        out.append({
+            "xyz": m.to_xyz_string(), "sdf": m.to_sdf_string(), "file": Path(path).read_text(),
+            "bbox": [m.bbox_corners, m.bbox_size], "inertia": m.inertia_tensor(),
+            "pmi": m.principle_moments_of_inertia(), "axes": m.axes(),
+            "frame": m.positions_in_molecular_axis_frame(), "bonds": [list(map(float, b)) for b in m.unique_bonds],
+            "fragments": [len(f) for f in m.connected_fragments()],
+            "oriented": m.oriented().positions, "translated": m.translated(np.array([1.0, 2.0, 3.0])).positions,
+            "rotated": m.rotated(rot, origin=(0, 0, 0)).positions,
+            "transformed": m.transformed(rotation=rot, translation=np.array([1.0, 0.0, 0.0])).positions,
+            "masked": m.mask(np.arange(len(m)) < 2).positions,
+            "asym_symops": m.asym_symops, "charges": m.partial_charges, "dipole": m.molecular_dipole_moment,
+            "esp": m.electrostatic_potential(pts), "to_next": m.distance_to(mols[(k + 1) % len(mols)]),
+            "name": m.name, "sd": m.shape_descriptors(l_max=2),
+        })  # fmt: skip
+    return out
+
+
 def q_accessors(c, A, ctx):
     pts = np.array([[0.1, 0.2, 0.3], [1.5, -0.25, 0.75]])
     return {
@@ -422,6 +453,7 @@ QUERIES = {
     "repr": (q_repr, "N"),
     "accessors": (q_accessors, "N"),
     "touch_mols": (q_touch_mols, "C"),
+    "mol_api": (q_mol_api, "C"),
     "cif": (q_cif, "X"),
     "cif_data": (q_cif_data, "X"),
     "poscar": (q_poscar, "X"),
